@@ -1,6 +1,7 @@
 // module tree of the rodbus crate (contents are fragments; every item text comes from /repo)
 pub mod error {
 //@include frag/error.tpl
+//@include frag/error_scursor.tpl
 }
 pub mod constants {
 //@include frag/constants.tpl
